@@ -71,6 +71,13 @@ pub fn run(prop: &str, tier: &str, seed: u64, outfile: &str) {
         "C05" => gen_c05(&mut out, &mut rng, thorough),
         "C09" => gen_c09(&mut out, &mut rng, thorough),
         "smoke" => gen_smoke(&mut out, &mut rng),
+        "C01" | "C02" | "C06" => gen_cells(&mut out, &mut rng, thorough, prop),
+        "C03" | "C15" => gen_geometry(&mut out, &mut rng, thorough),
+        "C04" => gen_c04(&mut out, &mut rng, thorough),
+        "C10" => gen_c10(&mut out, &mut rng, thorough),
+        "C07" => gen_c07(&mut out, &mut rng, thorough),
+        "C08" => gen_c08(&mut out, &mut rng, thorough),
+        "C11" => gen_c11(&mut out, &mut rng, thorough),
         _ => {
             eprintln!("unknown property {}", prop);
             std::process::exit(2);
@@ -257,6 +264,425 @@ fn gen_smoke(out: &mut Out, rng: &mut Rng) {
                 let o = Opts { ecl: Some(e), mode: Some(m), version: Some(v), mask };
                 out.job(move || build_line(&inp, o));
             }
+        }
+    }
+}
+
+// ---------------------------------------------------------------------------------------------
+/// caps[mode][ecl][v] = largest length that fits version v (by the implementation's own graph)
+pub fn caps() -> Vec<Vec<Vec<usize>>> {
+    let mut c = vec![vec![vec![0usize; 40]; 4]; 3];
+    for m in 0..3 {
+        for e in 0..4 {
+            let mut len = 0usize;
+            loop {
+                match h::version_get(mode_of(m), ecl_of(e), len) {
+                    Some(v) => {
+                        for w in (v as usize)..40 {
+                            c[m][e][w] = len;
+                        }
+                    }
+                    None => break,
+                }
+                len += 1;
+                if len > 8000 {
+                    break;
+                }
+            }
+        }
+    }
+    c
+}
+
+/// content classes: 0 random over the alphabet, 1 lowest symbol, 2 highest symbol, 3 pad look-alike
+pub fn content_class(rng: &mut Rng, mode: usize, len: usize, class: usize) -> Vec<u8> {
+    match (class, mode) {
+        (0, _) => content(rng, mode, len),
+        (1, 0) | (1, 1) => vec![b'0'; len],
+        (1, _) => vec![0u8; len],
+        (2, 0) => vec![b'9'; len],
+        (2, 1) => vec![b':'; len],
+        (2, _) => vec![0xFFu8; len],
+        (_, 2) => (0..len).map(|i| if i % 2 == 0 { 0xEC } else { 0x11 }).collect(),
+        (_, 1) => (0..len).map(|i| if i % 2 == 0 { b'Z' } else { b' ' }).collect(),
+        _ => (0..len).map(|i| b'0' + (i % 10) as u8).collect(),
+    }
+}
+
+/// interesting lengths for a (mode, ecl, version) cell: tiny, middle, just below / at capacity
+fn cell_lengths(rng: &mut Rng, cap: usize, prev_cap: Option<usize>, how_many: usize) -> Vec<usize> {
+    let lo = prev_cap.map_or(0, |p| p + 1);
+    let mut v = vec![cap, lo.min(cap), cap.saturating_sub(1), cap.saturating_sub(2), cap / 2, 0, 1, 2, 3, cap.saturating_sub(3)];
+    v.retain(|&l| l <= cap);
+    let mut out = Vec::new();
+    for _ in 0..how_many {
+        let l = if rng.chance(1, 3) { rng.range(0, cap) } else { *rng.pick(&v) };
+        out.push(l);
+    }
+    out
+}
+
+/// C01 / C02 / C06: every (version, level) cell, modes and masks forced or automatic.
+fn gen_cells(out: &mut Out, rng: &mut Rng, thorough: bool, prop: &str) {
+    let caps = caps();
+    for v in 0..40usize {
+        for e in 0..4usize {
+            // quick: 3 cases per cell; thorough: every (mask in 8+auto) x (mode in 3+auto)
+            let combos: Vec<(Option<usize>, Option<usize>)> = if thorough {
+                let mut c = Vec::new();
+                for mk in 0..9 {
+                    for md in 0..4 {
+                        c.push((if mk == 8 { None } else { Some(mk) }, if md == 3 { None } else { Some(md) }));
+                    }
+                }
+                c
+            } else {
+                (0..3)
+                    .map(|_| {
+                        (
+                            if rng.chance(1, 3) { None } else { Some(rng.below(8)) },
+                            if rng.chance(1, 4) { None } else { Some(rng.below(3)) },
+                        )
+                    })
+                    .collect()
+            };
+            for (mask, mode) in combos {
+                // content mode: the forced one, or a random one when automatic
+                let cm = mode.unwrap_or_else(|| rng.below(3));
+                let cap = caps[cm][e][v];
+                let prev = if v > 0 { Some(caps[cm][e][v - 1]) } else { None };
+                let n = if prop == "C06" { 2 } else { 1 };
+                for len in cell_lengths(rng, cap, prev, n) {
+                    let class = if rng.chance(1, 2) { 0 } else { rng.below(4) };
+                    let inp = content_class(rng, cm, len, class);
+                    // forced version only makes sense when the input fits; otherwise automatic
+                    let version = if rng.chance(3, 4) { Some(v) } else { None };
+                    let o = Opts { ecl: Some(e), mode, version, mask };
+                    out.job(move || build_line(&inp, o));
+                }
+            }
+            if prop == "C06" {
+                // lengths leaving 0..12 spare bits and all residues mod 3 / mod 2, per mode
+                for m in 0..3usize {
+                    let cap = caps[m][e][v];
+                    let ks: Vec<usize> = if thorough { (0..=6).collect() } else { vec![0, 1, rng.range(2, 6)] };
+                    for k in ks {
+                        if k > cap {
+                            continue;
+                        }
+                        let len = cap - k;
+                        let inp = content_class(rng, m, len, 0);
+                        let o = Opts { ecl: Some(e), mode: Some(m), version: Some(v), mask: Some(rng.below(8)) };
+                        out.job(move || build_line(&inp, o));
+                    }
+                }
+            }
+        }
+    }
+    // level left automatic (default Q) and everything automatic, short inputs
+    for _ in 0..(if thorough { 400 } else { 60 }) {
+        let m = rng.below(3);
+        let len = rng.range(0, 120);
+        let inp = content(rng, m, len);
+        let o = Opts { ecl: None, mode: None, version: None, mask: None };
+        out.job(move || build_line(&inp, o));
+    }
+}
+
+/// C03 / C15: geometry and labels must not depend on payload, level or mask.
+fn gen_geometry(out: &mut Out, rng: &mut Rng, thorough: bool) {
+    let caps = caps();
+    for v in 0..40usize {
+        let cells: Vec<(usize, Option<usize>)> = if thorough {
+            let mut c = Vec::new();
+            for e in 0..4 {
+                for k in 0..8 {
+                    c.push((e, Some(k)));
+                }
+                c.push((e, None));
+            }
+            c
+        } else {
+            vec![(rng.below(4), Some(rng.below(8))), (rng.below(4), None)]
+        };
+        for (e, mask) in cells {
+            let shapes = if thorough { 3 } else { 1 };
+            for sh in 0..shapes {
+                let m = rng.below(3);
+                let cap = caps[m][e][v];
+                let len = match sh {
+                    0 => rng.range(0, cap),
+                    1 => cap,
+                    _ => 0,
+                };
+                let cl = rng.below(4);
+                let inp = content_class(rng, m, len, cl);
+                let o = Opts { ecl: Some(e), mode: Some(m), version: Some(v), mask };
+                out.job(move || build_line(&inp, o));
+            }
+        }
+    }
+}
+
+/// C04: exhaustive 4 levels x 8 masks x 40 versions with forced options, plus automatic selection.
+fn gen_c04(out: &mut Out, rng: &mut Rng, thorough: bool) {
+    let caps = caps();
+    let reps = if thorough { 3 } else { 1 };
+    for v in 0..40usize {
+        for e in 0..4usize {
+            for k in 0..8usize {
+                for _ in 0..reps {
+                    let m = rng.below(3);
+                    let len = rng.range(0, caps[m][e][v]);
+                    let inp = content(rng, m, len);
+                    let mode = if rng.chance(1, 2) { Some(m) } else { None };
+                    let o = Opts { ecl: Some(e), mode, version: Some(v), mask: Some(k) };
+                    out.job(move || build_line(&inp, o));
+                }
+            }
+        }
+    }
+    // automatic selection of each option
+    for _ in 0..(if thorough { 1500 } else { 250 }) {
+        let m = rng.below(3);
+        let e = rng.below(4);
+        let v = rng.below(40);
+        let lim = if rng.chance(1, 2) { 60 } else { 4000 };
+        let len = rng.range(0, caps[m][e][v].min(lim));
+        let inp = content(rng, m, len);
+        let o = Opts {
+            ecl: if rng.chance(1, 2) { Some(e) } else { None },
+            mode: if rng.chance(1, 2) { Some(m) } else { None },
+            version: if rng.chance(1, 3) { Some(v) } else { None },
+            mask: if rng.chance(1, 2) { Some(rng.below(8)) } else { None },
+        };
+        out.job(move || build_line(&inp, o));
+    }
+}
+
+/// C10: arbitrary byte strings, all option combinations; a separate malformed stream (`buildx`:
+/// forced mode whose alphabet does not contain the input — outside the property, used only to
+/// validate the model's trap behaviour).
+pub fn buildx_line(input: &[u8], o: Opts) -> String {
+    build_line(input, o).replacen("build ", "buildx ", 1)
+}
+fn gen_c10(out: &mut Out, rng: &mut Rng, thorough: bool) {
+    let caps = caps();
+    let stride = if thorough { 1 } else { 37 };
+    let mut lens: Vec<usize> = (0..=8000).step_by(stride).collect();
+    for m in 0..3 {
+        for e in 0..4 {
+            for v in [0usize, 8, 9, 25, 26, 39] {
+                for d in 0..3 {
+                    lens.push(caps[m][e][v] + d);
+                    lens.push(caps[m][e][v].saturating_sub(d));
+                }
+            }
+        }
+    }
+    for len in lens {
+        let classes: Vec<usize> = if thorough { vec![0, 1, 2, 3] } else { vec![rng.below(4)] };
+        for class in classes {
+            // automatic mode on arbitrary bytes, or a forced mode on content of its alphabet
+            let (mode, inp) = if rng.chance(1, 2) {
+                let m = rng.below(3);
+                (if rng.chance(1, 2) { Some(m) } else { None }, content_class(rng, m, len, class))
+            } else {
+                (None, content_class(rng, 2, len, class))
+            };
+            let o = Opts {
+                ecl: if rng.chance(3, 4) { Some(rng.below(4)) } else { None },
+                mode,
+                version: if rng.chance(1, 2) { Some(rng.below(40)) } else { None },
+                mask: if rng.chance(1, 2) { Some(rng.below(8)) } else { None },
+            };
+            out.job(move || build_line(&inp, o));
+        }
+    }
+    // malformed stream
+    for _ in 0..(if thorough { 600 } else { 80 }) {
+        let len = rng.range(1, 300);
+        let forced = rng.below(2);
+        let mut inp = content(rng, forced, len);
+        let pos = rng.below(len);
+        inp[pos] = *rng.pick(b"az,;@\x00\x80\xff!#");
+        if forced == 0 && rng.chance(1, 2) {
+            inp[pos] = b'A';
+        }
+        let o = Opts { ecl: Some(rng.below(4)), mode: Some(forced), version: None, mask: Some(rng.below(8)) };
+        out.job(move || buildx_line(&inp, o));
+    }
+}
+
+// ---------------------------------------------------------------------------------------------
+// C07: `division` and `get_polynomial` driven directly through the hooks.
+pub fn division_line(data: &[u8], gen: &[u8]) -> String {
+    let (d, g) = (data.to_vec(), gen.to_vec());
+    let r = std::panic::catch_unwind(move || h::division(&d, &g));
+    match r {
+        Ok(buf) => format!("division {} {} => {}", hex(data), hex(gen), hex(&buf)),
+        Err(_) => format!("division {} {} => trap", hex(data), hex(gen)),
+    }
+}
+pub fn genpoly_line(e: usize, v: usize) -> String {
+    format!("genpoly {} {} => {}", e, v, hex(h::get_polynomial(version_of(v), ecl_of(e))))
+}
+
+fn gen_c07(out: &mut Out, rng: &mut Rng, thorough: bool) {
+    // degree map, all 160 pairs
+    for e in 0..4 {
+        for v in 0..40 {
+            out.line(&genpoly_line(e, v));
+        }
+    }
+    // distinct (generator, block length) pairs in use
+    let mut pairs: Vec<(Vec<u8>, usize)> = Vec::new();
+    for e in 0..4 {
+        for v in 0..40 {
+            let g = h::get_polynomial(version_of(v), ecl_of(e)).to_vec();
+            let gr = h::ecc_to_groups(ecl_of(e), version_of(v));
+            for (c, s) in gr {
+                if c > 0 && !pairs.iter().any(|(g2, s2)| *g2 == g && *s2 == s) {
+                    pairs.push((g.clone(), s));
+                }
+            }
+        }
+    }
+    for (g, len) in pairs {
+        // unit vectors: thorough = every position x every value; quick = 8 positions x 4 values
+        let positions: Vec<usize> = if thorough { (0..len).collect() } else { (0..8).map(|_| rng.below(len)).chain([0, len - 1]).collect() };
+        for pos in positions {
+            let values: Vec<u8> = if thorough && len <= 40 { (1..=255).collect() } else { vec![1, 2, 0x80, 0xFF, rng.byte() | 1] };
+            for val in values {
+                let mut d = vec![0u8; len];
+                d[pos] = val;
+                let g2 = g.clone();
+                out.job(move || division_line(&d, &g2));
+            }
+        }
+        // zeros-heavy and random
+        for k in 0..(if thorough { 40 } else { 6 }) {
+            let d: Vec<u8> = (0..len)
+                .map(|i| match k % 3 {
+                    0 => rng.byte(),
+                    1 => if rng.chance(1, 4) { rng.byte() } else { 0 },
+                    _ => if i < len / 2 { 0 } else { rng.byte() },
+                })
+                .collect();
+            let g2 = g.clone();
+            out.job(move || division_line(&d, &g2));
+        }
+        out.job({
+            let g2 = g.clone();
+            move || division_line(&vec![0u8; len], &g2)
+        });
+        out.job({
+            let g2 = g.clone();
+            move || division_line(&vec![0xFFu8; len], &g2)
+        });
+    }
+}
+
+// ---------------------------------------------------------------------------------------------
+// C08: the real `datamasking::mask` on the real blank symbol (exhaustive 40 x 8 x 2 fills), and
+// pairs of forced-mask builds of the same payload.
+fn raw_nibbles(q: &fast_qr::QRCode) -> String {
+    matrix_hex(q)
+}
+pub fn masku_line(v: usize, m: usize, fill: usize) -> String {
+    let mut q = h::create_matrix(version_of(v));
+    let n = q.size;
+    if fill > 0 {
+        for r in 0..n {
+            for c in 0..n {
+                let val = match fill {
+                    1 => true,
+                    _ => (r * 7 + c * 13 + r * c) % 3 == 0,
+                };
+                q[r][c].set(val);
+            }
+        }
+    }
+    let before = raw_nibbles(&q);
+    let r = std::panic::catch_unwind(std::panic::AssertUnwindSafe(|| {
+        fast_qr::datamasking::mask(&mut q, mask_of(m));
+    }));
+    match r {
+        Ok(()) => format!("masku {} {} {} => {} {} {}", v, m, fill, n, before, raw_nibbles(&q)),
+        Err(_) => format!("masku {} {} {} => trap", v, m, fill),
+    }
+}
+pub fn pair_line(input: &[u8], e: usize, md: usize, v: usize, a: usize, b: usize) -> String {
+    let oa = build(input, Opts { ecl: Some(e), mode: Some(md), version: Some(v), mask: Some(a) });
+    let ob = build(input, Opts { ecl: Some(e), mode: Some(md), version: Some(v), mask: Some(b) });
+    format!("pair {} {} {} {} {} {} => {} | {}", hex(input), e, md, v, a, b, outcome_full(&oa), outcome_full(&ob))
+}
+
+fn gen_c08(out: &mut Out, rng: &mut Rng, thorough: bool) {
+    for v in 0..40 {
+        for m in 0..8 {
+            for fill in [0usize, 2] {
+                out.job(move || masku_line(v, m, fill));
+            }
+        }
+    }
+    let caps = caps();
+    let versions: Vec<usize> = if thorough { (0..40).collect() } else { vec![0, 1, 6, 13, 26, 39] };
+    for v in versions {
+        let reps = if thorough { 3 } else { 1 };
+        for _ in 0..reps {
+            let e = rng.below(4);
+            let md = rng.below(3);
+            let len = rng.range(0, caps[md][e][v]);
+            let inp = content(rng, md, len);
+            for a in 0..8 {
+                for b in (a + 1)..8 {
+                    let i2 = inp.clone();
+                    out.job(move || pair_line(&i2, e, md, v, a, b));
+                }
+            }
+        }
+    }
+}
+
+// ---------------------------------------------------------------------------------------------
+// C11: the eight recorded candidates of the selection loop (hook) and the emitted mask.
+pub fn select_line(input: &[u8], e: usize, md: usize, v: usize, forced: Option<usize>) -> String {
+    h::recorder_start();
+    let o = build(input, Opts { ecl: Some(e), mode: Some(md), version: Some(v), mask: forced });
+    let cands = h::recorder_take();
+    let mut s = format!("select {} {} {} {} {} => ", hex(input), e, md, v, opt(forced));
+    match &o {
+        Outcome::Ok(q) => {
+            s.push_str(&format!("ok {} {} {}", opt(q.mask.map(mask_ix)), q.size, cands.len()));
+            for c in &cands {
+                let m: String = c.modules.iter().map(|b| std::char::from_digit(u32::from(*b), 16).unwrap_or('X')).collect();
+                s.push_str(&format!(" {} {} {}", c.mask as usize, c.score, m));
+            }
+            s.push_str(&format!(" {}", matrix_hex(q)));
+        }
+        _ => s.push_str(&outcome_short(&o)),
+    }
+    s
+}
+
+fn gen_c11(out: &mut Out, rng: &mut Rng, thorough: bool) {
+    let caps = caps();
+    let cells: Vec<(usize, usize)> = if thorough {
+        (0..40).flat_map(|v| (0..4).map(move |e| (v, e))).collect()
+    } else {
+        [0usize, 1, 2, 4, 6, 9, 13, 20, 26, 33, 39].iter().map(|&v| (v, v % 4)).collect()
+    };
+    for (v, e) in cells {
+        let reps = if thorough { 6 } else if v < 10 { 12 } else { 4 };
+        for k in 0..reps {
+            let md = rng.below(3);
+            let cap = caps[md][e][v];
+            let len = if k % 3 == 0 { cap } else { rng.range(0, cap) };
+            let class = if k % 4 == 3 { rng.below(4) } else { 0 };
+            let inp = content_class(rng, md, len, class);
+            let forced = if k % 6 == 5 { Some(rng.below(8)) } else { None };
+            out.job(move || select_line(&inp, e, md, v, forced));
         }
     }
 }
